@@ -255,7 +255,10 @@ func (d *Decoder) readMap(dest reflect.Value) error {
 		SetValue(dest, r)
 		return nil
 	case _mapTypedTag:
-		d.readString(_tagRead)
+		// the type is a string or a reference, and takes its place in the type list
+		if _, err := d.readType(); err != nil {
+			return err
+		}
 	case _mapUntypedTag:
 		//do nothing
 	default:
